@@ -171,7 +171,7 @@ def run(ch, ctx):
             hole = cfg['custom']['hole']
         board = 0 if v in ('F7S', 'F7S8', 'FR', 'XSHL', 'X5S') else 5 * cfg['sbc'] * 3
         size = {'NS': 36, 'NR': 20}.get(v, 52)
-        if family_draw or v == 'XKUHN' or cfg['n'] * hole + board > size:
+        if family_draw or v == 'XKUHN' or cfg['n'] * hole + board + 6 > size:
             dealer = 'explicit'     # revealing real cards for every unknown one must stay physically possible
         else:
             cfg['autos'] &= ~SHOW_BIT
